@@ -59,6 +59,12 @@ def run_limit_agreement(ctx, prog):
                         continue
                     ok = False
                     why += "; counter assigned %s" % show(v)
+                # the counter cannot wrap: it is pointer-sized (bounded by the input length) or saturated at the limit
+                saturated = any(kind == "rv" and const_named(sy.rvalue(x), "block_hash::MAX_SEQUENCE_SIZE") for (blk, idx, kind, x) in f.defs.get(l, []))
+                wide = f.locals[l]["ty"] in ("usize", "u64")
+                if not (wide or saturated):
+                    ok = False
+                    why += "; counter type %s can wrap on long runs and is not saturated at the limit" % f.locals[l]["ty"]
                 incr_before = False
                 for (_op, _e, bi, bj, _s) in limit:
                     if strip(_e) != e:
